@@ -136,6 +136,15 @@ Proof.
     rewrite (N.mod_mul_r n _ 256 P) by lia. ring.
 Qed.
 
+Lemma be_length k n : List.length (be k n) = k.
+Proof. induction k as [|k IH]; cbn [be List.length]; [reflexivity|]. rewrite IH. reflexivity. Qed.
+
+Lemma be_wfb k n : wfb (be k n).
+Proof.
+  induction k as [|k IH]; cbn [be]; constructor; [|exact IH].
+  apply N.mod_lt. lia.
+Qed.
+
 Lemma unbe_be8 n : n < two64 -> unbe (be 8 n) = n.
 Proof.
   intros L. rewrite unbe_be. apply N.mod_small. exact L.
